@@ -275,14 +275,14 @@ CHECKS["C10"] = {
             "shifted to their appearance cycles (=> key set follows valid child outputs, isolation, fresh state on re-appearance, pending timers "
             "of removed keys never fire, timers of live keys all fire); child graph starts == stops == number of key lives. states = distinct "
             "output traces; transitions = output ticks compared; non-trivial = >= 2 key lives with a timer firing or >= 3 lives. "
-            "Two multiplexed dictionaries with differing key sets (functions pair / stateful pair): every pair of per-dictionary histories; a child "
+            "Two multiplexed dictionaries with differing key sets (functions pair / stateful pair / self-scheduling delayed echo): every pair of per-dictionary histories; a child "
             "lives for every key of the UNION, each of its two inputs is the key's element of one dictionary and is absent while the key is not in that "
             "dictionary; per key life the map's ticks must equal the function run alone on the two element streams (an element leaving one dictionary "
             "makes that input invalid from the leaving cycle or from the next one - both accepted), the key is in the output from its first tick until "
             "it left both dictionaries, one child start/stop per union-key life.",
     "bounds": {"quick": "L<=2 x T=3 (7-op alphabet), timer: L=1 x T=5 and L<=2 x T=3, broadcast: L=1 x T=4 x 54 broadcast histories; two dictionaries: 216 x 216 history pairs (T=3)",
                "thorough": "L<=2 x T=4, timer: L=1 x T=6 and L<=2 x T=4, broadcast: L=1 x T=5"},
-    "min_counters": {"quick": {"nontrivial": 50000, "states": 3000, "map.cases_timer": 10000, "map.cases_two": 40000, "map.cases_twocount": 40000}},
+    "min_counters": {"quick": {"nontrivial": 50000, "states": 3000, "map.cases_timer": 10000, "map.cases_two": 40000, "map.cases_twocount": 40000, "map.cases_twotimer": 40000}},
     "assumptions": COMMON_ASSUMPTIONS + ["A key erased and re-added within one cycle is not an observed removal (the input delta shows no removal): its child continues.",
                                            "Nested maps, key-set source re-pointing, tsl_map and mesh are not explored."],
     "level_text": "Every execution of the bounded key-history x function space is validated against executions of the same function alone on the real engine.",
